@@ -86,6 +86,19 @@ func genC15(t *rapid.T) CaseC15 {
 	default:
 		c.D = rapid.Uint64Range(1, c15Lower).Draw(t, "d")
 	}
+	if rapid.IntRange(0, 7).Draw(t, "mirror") == 0 {
+		// a pair that mirrors the wrap: p lies as far before it as p+d lies behind it (q is that second value)
+		var b uint64
+		switch rapid.IntRange(0, 2).Draw(t, "mirror-kind") {
+		case 0:
+			b = rapid.SampledFrom([]uint64{1, 2, 90, 3003, 45000, 90000, 900000, 2700000, 5400000, 81000000}).Draw(t, "mirror-b")
+		case 1:
+			b = uint64(1) << uint(rapid.IntRange(0, 26).Draw(t, "mirror-k"))
+		default:
+			b = rapid.Uint64Range(1, c15Lower/2).Draw(t, "mirror-any")
+		}
+		c.P, c.D, c.Q = c15Max+1-b, 2*b, b
+	}
 	return c
 }
 
